@@ -3,7 +3,7 @@
 From Coq Require Import List NArith Bool.
 From SNT Require Import Base.Outcome Automata.Regex Automata.NFA Automata.Build Automata.Compile
   Automata.BuildLeaves Automata.BuildProofs Automata.CompileSpec Automata.CompileProofs Automata.BuildKeys
-  Automata.C15Main.
+  Automata.C15Main Automata.RegexProofs.
 Import ListNotations.
 Local Open Scope N_scope.
 
@@ -72,6 +72,15 @@ Theorem C15_terminal_dead : forall (e : regex) (fuel cf : nat) (d : dfa),
                     (terminal i = true -> forall c w, ~ matches e (s ++ c :: w))
       end.
 Proof. exact main_terminal_dead. Qed.
+
+(* the reference matcher used as property predicate by the correspondence check
+   decides the denotation *)
+Theorem C15_matcher : forall (s : list N) (e : regex), matcher e s = true <-> matches e s.
+Proof. exact matcher_correct. Qed.
+
+Theorem C15_isempty : forall e : regex,
+  (isempty e = true -> forall s, ~ matches e s) /\ (isempty e = false -> exists s, matches e s).
+Proof. exact isempty_correct. Qed.
 
 Check C15_main : forall (e : regex) (fuel cf : nat) (d : dfa),
   compile fuel cf (build e) = Ok d ->
